@@ -106,7 +106,8 @@ func probeHandler(w http.ResponseWriter, r *http.Request) {
 		return
 	}
 	if offer == "" {
-		log.Printf("Error processing session description: %s", err.Error())
+		// err is nil here: a body without a client match decodes fine
+		log.Printf("Error processing session description: no offer in the request")
 		w.WriteHeader(http.StatusBadRequest)
 		return
 	}
